@@ -22,7 +22,7 @@ RULE = ("program enumeration: every public name of dir(networkx.Graph) and dir(n
         "leaves the snapshot unchanged. distinct = distinct (model state, callable, argument shape); non-trivial = "
         "the state has at least one interaction.")
 MIN = {"quick": {"blocked:raises-NotImplemented": 5000, "blocked:no-trace": 5000, "other:consistent": 20000,
-                 "frozen:raises": 3000, "frozen:unchanged": 3000},
+                 "frozen:raises": 1200, "frozen:unchanged": 1200},
        "thorough": {"blocked:raises-NotImplemented": 100000, "blocked:no-trace": 100000, "other:consistent": 400000,
                     "frozen:raises": 60000, "frozen:unchanged": 60000}}
 REQUIRED_CELLS = {t: ("class:DynGraph", "class:DynDiGraph", "call:clear", "call:clear_edges", "call:copy",
